@@ -132,6 +132,12 @@ func awkwardAny() []namedValue {
 		nv("Init+SetExpression", func() any { var c stackage.Condition; c.Init(); c.SetExpression("only-ex"); return c }()), nv("Init+SetKeyword", func() any { var c stackage.Condition; c.Init(); c.SetKeyword("only-kw"); return c }()),
 		nv("&freed Stack", &freedS), nv("&freed Condition", &freedC), nv("&StackAlias{}", &StackAlias{}), nv("&Condition{}", &stackage.Condition{}),
 		nv("namedStr", namedStr("role")), nv("namedBool", namedBool(true)), nv("namedInt", namedInt(5)), nv("namedFloat", namedFloat(2.5)), nv("namedBytes", namedBytes("b")),
+		// comparable by type, not by value: an interface-typed field / entry that holds a slice, map or func
+		nv("struct{any:[]string}", struct {
+			Name string
+			Tags any
+		}{"n", []string{"t"}}), nv("[1]any{map}", [1]any{map[string]int{"a": 1}}), nv("struct{any:func}", struct{ F any }{func() {}}), nv("*struct{any:[]int}", &struct{ V any }{[]int{1}}),
+		nv("[2]any{nil,[]any}", [2]any{nil, []any{1}}), nv("struct{error:ptr}", struct{ E error }{&ptrErr{"e"}}), nv("[]any{[]any{map}}", []any{[]any{map[string]any{"k": []int{1}}}}),
 		nv("[]*int{nil}", []*int{nil}), nv("[]func(){f}", []func(){func() {}}), nv("[2]*string{nil,nil}", [2]*string{}), nv("[]any{1,nil}", []any{1, nil}),
 		nv("Stringer", strer{"str"}), nv("zero Stringer", strer{}), nv("[]string{}", []string{}), nv("LogLevel(0)", stackage.LogLevel(0)),
 	}
